@@ -32,6 +32,8 @@ def int_of_str(I, s, base=10):
         raise Undecided("int(s, base)")
     t = s.term
     sp = struct_parts(I, t)
+    if sp is not None and len(sp) == 1 and sp[0][0] == "num":
+        return norm_int(sp[0][1].arg(0))      # int(str(n)) == n for n >= 0 (decimal bijection, trusted)
     if sp is not None and base == 10 and struct_is_digits(I, sp):
         r = norm_int(z3.StrToInt(t))
         if is_sym_int(r):
@@ -116,7 +118,9 @@ def encode(I, s, enc="utf-8"):
 def struct_parts(I, term):
     atoms = I.cfg.get("atoms") if I is not None else None
     if not atoms:
-        return None
+        if I is None or not I.cfg.get("rope"):
+            return None
+        atoms = {}
     t = z3.simplify(term)
 
     def flat(x):
@@ -131,12 +135,132 @@ def struct_parts(I, term):
     for k in kids:
         if z3.is_string_value(k):
             from .harness import decode_z3_string
-            out.append(("lit", decode_z3_string(k.as_string())))
+            v = decode_z3_string(k.as_string())
+            if out and out[-1][0] == "lit":
+                out[-1] = ("lit", out[-1][1] + v)
+            else:
+                out.append(("lit", v))
         elif z3.is_const(k) and str(k) in atoms:
             out.append(("atom", k))
+        elif I.cfg.get("rope") and z3.is_app(k) and k.decl().kind() == z3.Z3_OP_INT_TO_STR and rope_nonneg(I, k.arg(0)):
+            out.append(("num", k))
         else:
             return None
     return out
+
+
+# ------------------------------------------------------------------ ropes (cfg["rope"]): positions, index, slices without the string solver
+# A rope is a structured string whose parts are literals, atoms (alphabet None = any character) and decimal numerals
+# IntToStr(n) with n >= 0.  The length of a numeral is the uninterpreted NUMLEN(n) >= 1; numerals consist of digits.
+NUMLEN = z3.Function("numlen", z3.IntSort(), z3.IntSort())
+
+
+def rope_nonneg(I, x):
+    if z3.is_app(x) and x.decl().kind() == z3.Z3_OP_SEQ_LENGTH:
+        return True
+    if x.get_id() in I.ghost.get("nonneg", ()):
+        return True
+    return not I.path.feasible(x < 0)
+
+
+def part_len(I, p):
+    k, v = p
+    if k == "lit":
+        return len(v)
+    if k == "atom":
+        return z3.Length(v)
+    n = NUMLEN(v.arg(0))
+    key = ("numlen", n.get_id())
+    if key not in I.ghost.setdefault("rope_facts", set()):
+        I.ghost["rope_facts"].add(key)
+        I.path.fact(n >= 1, "a decimal numeral has at least one digit")
+    return n
+
+
+def rope_len(I, parts):
+    tot = 0
+    for p in parts:
+        tot = tot + part_len(I, p)
+    return norm_int(z3.simplify(tot)) if not isinstance(tot, int) else tot
+
+
+def rope_bounds(I, parts):
+    b, tot = [0], 0
+    for p in parts:
+        tot = tot + part_len(I, p)
+        b.append(tot)
+    return b
+
+
+def rope_locate(I, parts, pos):
+    """-> (k, o): pos == start of part k + o, o concrete, 0 <= o <= len(part k) (o > 0 only inside a literal); or None"""
+    b = rope_bounds(I, parts)
+    for k in range(len(parts) + 1):
+        d = concrete_int(norm_int(to_z3_int(pos) - to_z3_int(b[k])))
+        if d is None:
+            continue
+        if d == 0:
+            return k, 0
+        if k < len(parts) and parts[k][0] == "lit" and 0 < d < len(parts[k][1]):
+            return k, d
+    return None
+
+
+def part_may_contain(I, p, ch):
+    k, v = p
+    if k == "num":
+        return ch.isdigit()
+    if k == "atom":
+        alpha = atom_alpha(I, v)[0]
+        return alpha is None or ch in alpha
+    return ch in v
+
+
+def rope_index(I, parts, sep, start):
+    """position of the first `sep` (one character) at or after `start`; None = cannot tell; -1 = absent"""
+    loc = rope_locate(I, parts, start)
+    if loc is None or len(sep) != 1:
+        return None
+    k, o = loc
+    b = rope_bounds(I, parts)
+    while k < len(parts):
+        kind, v = parts[k]
+        if kind == "lit":
+            i = v.find(sep, o)
+            if i >= 0:
+                return norm_int(to_z3_int(b[k]) + i)
+        elif part_may_contain(I, parts[k], sep):
+            return None
+        k, o = k + 1, 0
+    return -1
+
+
+def rope_slice(I, parts, lo, hi):
+    """parts of s[lo:hi] when both ends are located and lo <= hi; else None"""
+    a = rope_locate(I, parts, lo)
+    z = rope_locate(I, parts, hi)
+    if a is None or z is None:
+        return None
+    (k1, o1), (k2, o2) = a, z
+    if (k1, o1) > (k2, o2):
+        return None
+    out = []
+    for k in range(k1, min(k2 + 1, len(parts))):
+        kind, v = parts[k]
+        if kind == "lit":
+            s0 = o1 if k == k1 else 0
+            e0 = o2 if k == k2 else len(v)
+            if v[s0:e0]:
+                out.append(("lit", v[s0:e0]))
+        elif k < k2:
+            out.append((kind, v))
+    return out
+
+
+def rope_of(I, s):
+    if not (I is not None and I.cfg.get("rope")) or not isinstance(s, SStr):
+        return None
+    return struct_parts(I, s.term)
 
 
 def parts_term(parts):
@@ -152,11 +276,11 @@ def atom_alpha(I, a):
 
 def struct_split(I, parts, sep, maxsplit):
     """split on a single-character separator that no atom can contain"""
-    if len(sep) != 1 or any(sep in atom_alpha(I, v)[0] for k, v in parts if k == "atom"):
+    if len(sep) != 1 or any(part_may_contain(I, (k, v), sep) for k, v in parts if k != "lit"):
         return None
     out, cur, n = [], [], 0
     for k, v in parts:
-        if k == "atom":
+        if k != "lit":
             cur.append((k, v))
             continue
         while True:
@@ -176,8 +300,10 @@ def struct_strip(I, parts, left, right):
     parts = [list(p) for p in parts]
 
     def solid(p):
+        if p[0] == "num":
+            return True
         alpha, mn = atom_alpha(I, p[1])
-        return mn >= 1 and not (set(alpha) & set(ws))
+        return alpha is not None and mn >= 1 and not (set(alpha) & set(ws))
     if left:
         while parts:
             if parts[0][0] == "lit":
@@ -204,7 +330,7 @@ def struct_strip(I, parts, left, right):
 
 
 def struct_min_len(I, parts):
-    return sum(len(v) if k == "lit" else atom_alpha(I, v)[1] for k, v in parts)
+    return sum(len(v) if k == "lit" else (1 if k == "num" else atom_alpha(I, v)[1]) for k, v in parts)
 
 
 def struct_is_digits(I, parts):
@@ -214,7 +340,9 @@ def struct_is_digits(I, parts):
         if k == "lit":
             if v and not (v.isdigit() and v.isascii()):
                 return False
-        elif not set(atom_alpha(I, v)[0]) <= set("0123456789"):
+        elif k == "num":
+            continue
+        elif atom_alpha(I, v)[0] is None or not set(atom_alpha(I, v)[0]) <= set("0123456789"):
             return False
     return True
 
@@ -261,6 +389,14 @@ def str_method(I, s, name):
             parts.append(x)
         if not parts:
             return b"" if isb else ""
+        if any(isinstance(x, SBytes) for x in parts):
+            acc = None
+            for x in parts:
+                if isinstance(x, bytes) and not x:
+                    continue
+                xb = as_sbytes(x)
+                acc = xb if acc is None else sb_concat(acc, xb)
+            return acc
         return M.str_concat(I, parts, isb)
 
     def find(I_, a, k):
@@ -274,6 +410,14 @@ def str_method(I, s, name):
     def index(I_, a, k):
         if conc(a):
             return native(a, k)
+        rp = rope_of(I, s)
+        if rp is not None and isinstance(a[0], (bytes, str)) and len(a) <= 2:
+            sep = a[0].decode("latin-1") if isinstance(a[0], bytes) else a[0]
+            r = rope_index(I, rp, sep, a[1] if len(a) > 1 else 0)
+            if r is not None:
+                if isinstance(r, int) and r < 0:
+                    raise PyRaise(ValueError("subsection not found"), ValueError)
+                return r
         r = find(I_, a, k)
         if I.path.branch(to_z3_int(r) < 0):
             raise PyRaise(ValueError("substring not found"), ValueError)
